@@ -16,7 +16,7 @@ META = {'assumptions': [
     'record streams: K records, each of a concrete kind chosen by fork, with symbolic residue-number digit, insertion code and chain characters',
 ]}
 
-QUICK_KINDS = ['N', 'CA', 'OXT', 'H', 'HOH', 'TER', 'MODEL', 'REMARK']
+QUICK_KINDS = ['N', 'CA', 'OXT', "O''", 'H', 'HOH', 'TER', 'MODEL', 'REMARK']
 ALL_KINDS = ['N', 'CA', 'OXT', "O''", 'H', 'HETN', 'HOH', 'WATN', 'TER', 'MODEL', 'REMARK']
 
 
@@ -239,8 +239,8 @@ def obligations(tier):
                                   max_paths=60000, wall_s=170, stop_on_violation=False))
     else:
         for first in ALL_KINDS:
-            obs.append(Obligation('O1-terminus-tagging[K=4,first=%s]' % first, mk_tagging(4, QUICK_KINDS + ["O''"], first), code=[I],
-                                  bounds='4 records; first is %s, the others any of %s + O\'\'' % (first, QUICK_KINDS), shards=4,
+            obs.append(Obligation('O1-terminus-tagging[K=4,first=%s]' % first, mk_tagging(4, QUICK_KINDS, first), code=[I],
+                                  bounds='4 records; first is %s, the others any of %s' % (first, QUICK_KINDS), shards=4,
                                   claim_doc='as quick', max_paths=400000, wall_s=1500, stop_on_violation=False))
         for first in ALL_KINDS:
             obs.append(Obligation('O1-terminus-tagging[K=3,all-kinds,first=%s]' % first, mk_tagging(3, ALL_KINDS, first), code=[I],
